@@ -253,6 +253,7 @@ def handle (j : Json) : Json :=
                   ("closed_at", if closedAtL == nodes then Json.null else Json.arr closedAtL.toArray),
                   ("cones", ofList (coneJson t) paths),
                   ("toks", ofList (tokJson t) paths),
+                  ("no_bad", Json.bool st.noBad),
                   ("redelivered", redelivered),
                   ("fold", resJson names (fold n t (Val.empty n))), ("out", out)]
     | _, _, _ => err "bad build args"
